@@ -171,13 +171,16 @@ def check(cx):
             a, b = allocs
             if f.dominates(b.bb, a.bb):
                 a, b = b, a
-            ra, rb = op_local({"c": a.dst}), op_local({"c": b.dst})
             c = cat[0]
-            d1 = f.dep_closure(op_local(c.args[1]))
-            d2 = f.dep_closure(op_local(c.args[2]))
-            good = ra in d1 and rb in d2 and ra not in d2 and rb not in d1
+            # component-wise provenance: (first, second) may travel through a tuple, a Result and `?`
+            o1 = f.origins_precise(op_local(c.args[1]))
+            o2 = f.origins_precise(op_local(c.args[2]))
+            good = f.dominates(a.bb, b.bb) and ("call", a.bb) in o1 and ("call", b.bb) in o2 and \
+                ("call", b.bb) not in o1 and ("call", a.bb) not in o2 and \
+                all(k == "const" for k, _ in (o1 | o2) - {("call", a.bb), ("call", b.bb)}) and \
+                {v for k, v in o1 if k == "const"} <= {1} and {v for k, v in o2 if k == "const"} <= {2}
             why = "first allocation -> meta_table, second -> meta_index" if good else \
-                "allocation results reach Catalog::new in the wrong order"
+                "allocation results reach Catalog::new in the wrong order (meta_table from %s, meta_index from %s)" % (sorted(map(str, o1)), sorted(map(str, o2)))
         cx.verdict(good, r7, name, f.where(), why,
                    "Database::%s: %s — after the first clean reopen the catalog roots are swapped and every table vanishes" % (name, why))
 
